@@ -167,6 +167,15 @@ fn apply(view: &SourceView, text: &str, op: Op) -> Option<(String, String)> {
     }
 }
 
+/// the two public constructors (clones are requests of the alphabet)
+const CTORS: [&str; 2] = ["SourceView::new", "SourceView::from_string"];
+fn make_view(text: &str, ctor: usize) -> SourceView {
+    match ctor {
+        0 => SourceView::new(text.into()),
+        _ => SourceView::from_string(text.to_string()),
+    }
+}
+
 /// a correct index has at most (lines + 2) states; texts here have at most 10 lines
 const STATE_CAP: usize = 64;
 
@@ -175,14 +184,14 @@ fn state_key(view: &SourceView) -> u64 {
 }
 
 /// Replays a request history on a fresh view; returns the first violation, if any.
-fn replay_history(text: &str, ops: &[Op]) -> Option<Viol> {
-    let view = SourceView::new(text.into());
+fn replay_history(text: &str, ctor: usize, ops: &[Op]) -> Option<Viol> {
+    let view = make_view(text, ctor);
     for (i, &op) in ops.iter().enumerate() {
         if let Some((sig, what)) = apply(&view, text, op) {
             return Some(Viol::new(
                 format!("C15/{sig}"),
-                format!("text {text:?}, requests {:?}: {what}", &ops[..=i]),
-                json!({"text": text, "ops": serde_json::to_value(&ops[..=i]).unwrap()}),
+                format!("text {text:?} ({}), requests {:?}: {what}", CTORS[ctor], &ops[..=i]),
+                json!({"text": text, "ctor": ctor, "ops": serde_json::to_value(&ops[..=i]).unwrap()}),
             ));
         }
     }
@@ -209,12 +218,12 @@ fn request_alphabet(text: &str) -> Vec<Op> {
 }
 
 /// BFS over real states to a fixpoint. Returns (states, transitions, traces, max depth).
-fn bfs(text: &str, l: &mut Local, order: u64) -> (u64, u64, u64, usize) {
+fn bfs(text: &str, ctor: usize, l: &mut Local, order: u64) -> (u64, u64, u64, usize) {
     let ops = request_alphabet(text);
     let mut seen: HashSet<u64> = HashSet::new();
     let mut frontier: VecDeque<Vec<Op>> = VecDeque::new();
     {
-        let v = SourceView::new(text.into());
+        let v = make_view(text, ctor);
         seen.insert(state_key(&v));
     }
     frontier.push_back(vec![]);
@@ -223,7 +232,7 @@ fn bfs(text: &str, l: &mut Local, order: u64) -> (u64, u64, u64, usize) {
         maxd = maxd.max(hist.len());
         for &op in &ops {
             // fresh real object, history replayed (a live view cannot be copied with its state)
-            let view = SourceView::new(text.into());
+            let view = make_view(text, ctor);
             let mut ok = true;
             for &h in &hist {
                 if apply(&view, text, h).is_some() {
@@ -243,8 +252,8 @@ fn bfs(text: &str, l: &mut Local, order: u64) -> (u64, u64, u64, usize) {
                     order,
                     Viol::new(
                         format!("C15/{sig}"),
-                        format!("text {text:?}, requests {full:?}: {what}"),
-                        json!({"text": text, "ops": serde_json::to_value(&full).unwrap()}),
+                        format!("text {text:?} ({}), requests {full:?}: {what}", CTORS[ctor]),
+                        json!({"text": text, "ctor": ctor, "ops": serde_json::to_value(&full).unwrap()}),
                     ),
                 );
                 continue;
@@ -303,16 +312,21 @@ pub fn run(run: &mut Run) -> Finish {
         let k = idx & ((1 << 40) - 1);
         let len = sizes.iter().rposition(|&s| s <= k).unwrap();
         let text = text_of(k - sizes[len], len);
-        let (states, transitions, traces, maxd) = bfs(&text, l, idx);
-        if states > STATE_CAP as u64 {
-            fix_fail.fetch_add(1, std::sync::atomic::Ordering::Relaxed);
+        let (mut states, mut maxd) = (0, 0);
+        for ctor in 0..CTORS.len() {
+            let (st, transitions, traces, md) = bfs(&text, ctor, l, idx);
+            if st > STATE_CAP as u64 {
+                fix_fail.fetch_add(1, std::sync::atomic::Ordering::Relaxed);
+            }
+            max_depth.fetch_max(md as u64, std::sync::atomic::Ordering::Relaxed);
+            l.transitions += transitions;
+            l.traces += traces;
+            states = states.max(st);
+            maxd = maxd.max(md);
         }
-        max_depth.fetch_max(maxd as u64, std::sync::atomic::Ordering::Relaxed);
-        l.transitions += transitions;
-        l.traces += traces;
         l.case(rlines(&text).len() > 1, h64(&(states, rlines(&text).len())));
         if l.wants_sample(idx) {
-            l.sample(idx, json!({"text": text, "model_lines": rlines(&text), "real_states_reached": states, "transitions": transitions, "bfs_depth": maxd}));
+            l.sample(idx, json!({"text": text, "model_lines": rlines(&text), "real_states_reached": states, "bfs_depth": maxd}));
         }
     });
 
@@ -334,11 +348,13 @@ pub fn run(run: &mut Run) -> Finish {
         for hl in 1..=hist_len {
             for h in 0..n.pow(hl as u32) {
                 let seq: Vec<Op> = seq_of(h, n, hl).iter().map(|&i| ops[i]).collect();
-                if let Some(v) = replay_history(&text, &seq) {
-                    l.violation_sub(idx, h, v);
+                for ctor in 0..CTORS.len() {
+                    if let Some(v) = replay_history(&text, ctor, &seq) {
+                        l.violation_sub(idx, h, v);
+                    }
+                    l.traces += 1;
+                    l.transitions += hl as u64;
                 }
-                l.traces += 1;
-                l.transitions += hl as u64;
             }
         }
         l.case(true, h64(&(2u8, rlines(&text).len())));
@@ -354,7 +370,7 @@ pub fn run(run: &mut Run) -> Finish {
         for (j, &op) in menu.iter().enumerate() {
             for pre in [false, true] {
                 let ops: Vec<Op> = if pre { vec![Op::Count, op] } else { vec![op] };
-                if let Some(v) = replay_history(&text, &ops) {
+                if let Some(v) = replay_history(&text, j % CTORS.len(), &ops) {
                     slice_fail_count.fetch_add(1, std::sync::atomic::Ordering::Relaxed);
                     l.violation_sub(idx, j as u64, v);
                 }
@@ -372,7 +388,7 @@ pub fn run(run: &mut Run) -> Finish {
     }
     Finish {
         level: "model_checking",
-        rule: "E2 explicit-state search on the real SourceView. For every text of the stated space: BFS from a fresh view over the request alphabet {get_line(0..=n+1), get_line(MAX), line_count, lines().collect, clone+get_line, clone+line_count, three get_line_slice requests}; states are the real (progress counter, cached line table) read through the cfg(sourcemap_verif) hook and used only as a dedup key; the search runs until no new state appears, so the claim covers request sequences of any length. Every transition compares the returned value with RLines/RSlice. Plus unmerged request histories and every (line, col, span) triple. states = distinct (text, real state) pairs; transitions = requests executed on real views; traces = histories replayed on fresh real objects (all of them — there is no separate model whose traces would need validation).".into(),
+        rule: "E2 explicit-state search on the real SourceView. For every text of the stated space and both public constructors (new, from_string): BFS from a fresh view over the request alphabet {get_line(0..=n+1), get_line(MAX), line_count, lines().collect, clone+get_line, clone+line_count, three get_line_slice requests}; states are the real (progress counter, cached line table) read through the cfg(sourcemap_verif) hook and used only as a dedup key; the search runs until no new state appears, so the claim covers request sequences of any length. Every transition compares the returned value with RLines/RSlice. Plus unmerged request histories and every (line, col, span) triple. states = distinct (text, real state) pairs; transitions = requests executed on real views; traces = histories replayed on fresh real objects (all of them — there is no separate model whose traces would need validation).".into(),
         assumptions: vec![
             "RLines / RSlice (refmodel of the statement): split at \\r\\n | \\n | \\r, UTF-16 slicing with whole pairs included".into(),
             "a slice that starts on the second half of a surrogate pair covers that pair (the statement's 'whole surrogate pairs included'; asserted since the audit of C15)".into(),
@@ -385,5 +401,5 @@ pub fn run(run: &mut Run) -> Finish {
 pub fn recheck(case: &Value) -> Vec<Viol> {
     let Some(text) = case["text"].as_str() else { return vec![] };
     let Ok(ops) = serde_json::from_value::<Vec<Op>>(case["ops"].clone()) else { return vec![] };
-    replay_history(text, &ops).into_iter().collect()
+    replay_history(text, case["ctor"].as_u64().unwrap_or(0) as usize, &ops).into_iter().collect()
 }
